@@ -402,8 +402,66 @@ pub fn direct(ctx: &Ctx) -> (u64, u64, bool, usize) {
         },
         |_, _| {},
     );
-    let complete = out.closed || out.capped_by.as_deref().map(|c| c.starts_with("max_depth")).unwrap_or(false);
-    (out.states, out.transitions, complete, depth)
+    let mut complete = out.closed || out.capped_by.as_deref().map(|c| c.starts_with("max_depth")).unwrap_or(false);
+    let (mut states, mut transitions) = (out.states, out.transitions);
+    // second search from prepared structures (wide child lists, text between elements, template contents,
+    // a select with option and selectedcontent): states the first search cannot reach within its depth
+    let idx = |o: DOp| -> u16 { ops.iter().position(|x| format!("{x:?}") == format!("{o:?}")).unwrap_or_else(|| machinery(&format!("prepared op {o:?} not in the alphabet"))) as u16 };
+    use DOp::*;
+    let preps: Vec<Vec<DOp>> = vec![
+        vec![NewEl(0), NewEl(5), NewComment, NewEl(0), Append(0, 1), Append(1, 2), Append(1, 3), Append(1, 4), AppendText(1, 0)],
+        vec![NewEl(0), NewEl(5), NewEl(0), NewEl(5), Append(0, 1), AppendText(1, 0), Append(1, 2), AppendText(1, 1), Append(1, 3), AppendText(1, 0), Append(1, 4)],
+        vec![NewEl(1), NewEl(0), NewEl(5), NewComment, Append(0, 1), AppendTpl(1, 2), AppendTpl(1, 3), AppendTpl(1, 4)],
+        vec![NewEl(2), NewEl(3), NewEl(4), NewEl(5), Append(0, 1), Append(1, 3), Append(1, 2), Append(2, 4), AppendText(4, 0)],
+        vec![NewEl(0), NewEl(0), NewEl(5), NewComment, Append(0, 1), Append(0, 2), Append(1, 3), Append(1, 4), AppendText(2, 0), AppendText(1, 1)],
+    ];
+    let pdepth = ctx.tier.pick(3, 4);
+    let pcfg = BfsCfg { max_depth: pdepth, max_states: 60_000_000, max_secs: ctx.tier.pick(12.0, 300.0) };
+    let mut roots = vec![];
+    for p in &preps {
+        let h: Vec<u16> = p.iter().map(|o| idx(*o)).collect();
+        match run_direct(&ops, &h) {
+            Some((s, pool)) => {
+                if let Some((k, m)) = direct_check(&s, &pool) {
+                    ctx.violation(&k, &render_direct(&ops, &h), json!({"message": m}));
+                } else {
+                    roots.push((h, direct_key(&s, &pool)));
+                }
+            },
+            None => machinery(&format!("prepared structure {p:?} is not enabled")),
+        }
+    }
+    let out2 = bfs(
+        roots,
+        ops.len(),
+        &pcfg,
+        |h, s| {
+            let mut nh = h.to_vec();
+            nh.push(s);
+            match guarded(|| run_direct(&ops, &nh)) {
+                Err(p) => {
+                    ctx.violation("panic", &render_direct(&ops, &nh), json!({"panic": p}));
+                    Step::Violation
+                },
+                Ok(None) => Step::Disabled,
+                Ok(Some((sink, pool))) => {
+                    if let Some((k, m)) = direct_check(&sink, &pool) {
+                        if k == "harness-contract" {
+                            machinery(&format!("{m} in {}", render_direct(&ops, &nh)));
+                        }
+                        ctx.violation(&k, &render_direct(&ops, &nh), json!({"message": m, "model": sink.dom.borrow().render_doc()}));
+                        return Step::Violation;
+                    }
+                    Step::Next(direct_key(&sink, &pool))
+                },
+            }
+        },
+        |_, _| {},
+    );
+    states += out2.states;
+    transitions += out2.transitions;
+    complete &= out2.closed || out2.capped_by.as_deref().map(|c| c.starts_with("max_depth")).unwrap_or(false);
+    (states, transitions, complete, depth)
 }
 
 pub fn replay_direct(ctx: &Ctx, w: &str) {
